@@ -478,3 +478,106 @@ func RLmMin(c *core.Ctx) {
 		c.Anchor("a store to requiredLandmarkMatch.End in requiredLandmarkAlternativeMatch")
 	}
 }
+
+// ---------------------------------------------------------------------------
+// R-NEGFRESH: "negate" flips the meaning of everything a CharSet already
+// holds.  Outside CharSet's own methods the flag may therefore be switched on
+// only for a set that was created in the same function (it holds exactly what
+// this function put into it) or that is known to be empty; switching it on for
+// an accumulator that arrived from the caller turns {a} ∪ [^b] into [^ab].
+// ---------------------------------------------------------------------------
+
+func RNegFresh(c *core.Ctx) {
+	c.Rule("R-NEGFRESH", "every assignment that may set CharSet.negate outside CharSet's own methods targets a set created in the same function on every path, or one that the dominating branch conditions show to be empty (len(s.ranges) == 0): negating an accumulator that already holds members inverts those members too", 3)
+	p := c.P
+	neg := p.LookupField("syntax", "CharSet", "negate")
+	ranges := p.LookupField("syntax", "CharSet", "ranges")
+	if neg == nil || ranges == nil {
+		c.Anchor("syntax.CharSet.negate / ranges")
+		return
+	}
+	var fresh func(v ssa.Value, seen map[ssa.Value]bool) bool
+	fresh = func(v ssa.Value, seen map[ssa.Value]bool) bool {
+		if seen[v] {
+			return true
+		}
+		seen[v] = true
+		switch x := v.(type) {
+		case *ssa.Alloc:
+			return true
+		case *ssa.Const:
+			return x.IsNil()
+		case *ssa.Phi:
+			for _, e := range x.Edges {
+				if !fresh(e, seen) {
+					return false
+				}
+			}
+			return true
+		}
+		return false
+	}
+	n := 0
+	for _, fn := range p.ModuleFuncs() {
+		if core.FnPkgPath(fn) == "" {
+			continue
+		}
+		if recv := fn.Signature.Recv(); recv != nil {
+			if _, nm := core.NamedOf(recv.Type()); nm == "CharSet" {
+				continue // the type's own methods maintain the representation
+			}
+		}
+		name := core.SSAName(fn)
+		cnt := 0
+		for _, b := range fn.Blocks {
+			for _, ins := range b.Instrs {
+				st, ok := ins.(*ssa.Store)
+				if !ok || core.FieldVarOfAddr(st.Addr) != neg {
+					continue
+				}
+				if k, isC := st.Val.(*ssa.Const); isC && k.Value != nil && k.Value.String() == "false" {
+					continue
+				}
+				fa := st.Addr.(*ssa.FieldAddr)
+				cnt++
+				n++
+				c.Visit(name)
+				key := fmt.Sprintf("%s / negate write #%d targets a fresh or empty set", name, cnt)
+				if fresh(fa.X, map[ssa.Value]bool{}) {
+					c.OK(key, st.Pos(), "the set is created in this function")
+					continue
+				}
+				// emptiness established by a dominating test: len(s.ranges) == 0
+				empty := false
+				for _, f := range core.FactsAtBlock(b) {
+					x, y, op, ok := core.CmpNorm(f)
+					if !ok || op != token.EQL {
+						continue
+					}
+					if k, isC := core.IntConst(x); isC && k == 0 {
+						x, y = y, x
+					}
+					if k, isC := core.IntConst(y); !isC || k != 0 {
+						continue
+					}
+					call, isCall := x.(*ssa.Call)
+					if !isCall {
+						continue
+					}
+					if bi, isB := call.Call.Value.(*ssa.Builtin); !isB || bi.Name() != "len" {
+						continue
+					}
+					if ld, isLd := call.Call.Args[0].(*ssa.UnOp); isLd {
+						if fa2, isFA := ld.X.(*ssa.FieldAddr); isFA && core.FieldVarOfAddr(fa2) == ranges && core.SameValue(fa2.X, fa.X) {
+							empty = true
+						}
+					}
+				}
+				c.Check(empty, key, st.Pos(), "the set reaches this assignment from outside the function (parameter or caller-owned accumulator) on some path and is not known to be empty: members it already holds change meaning")
+			}
+		}
+	}
+	if n == 0 {
+		c.Anchor("an assignment to CharSet.negate outside CharSet's methods")
+	}
+}
